@@ -171,8 +171,18 @@ structure Root where
 
 /-! ### generators of src/xml.rs -/
 
-/-- `cdata_escape`: a CDATA section cannot contain its own end marker; split it -/
-def cdataEscape (value : String) : String := value.replace "]]>" "]]]]><![CDATA[>"
+/-- `cdata_escape`: a CDATA section cannot contain its own end marker; split it.  A literal carriage return
+    would be read back as a line feed: it leaves the section as the character reference `&#13;` -/
+def cdataEscL : List Char → List Char
+  | ']' :: ']' :: '>' :: cs => "]]]]><![CDATA[>".toList ++ cdataEscL cs
+  | '\r' :: cs => "]]>&#13;<![CDATA[".toList ++ cdataEscL cs
+  | c :: cs => c :: cdataEscL cs
+  | [] => []
+
+/-- Rust: `value.replace("]]>", "]]]]><![CDATA[>").replace('\r', "]]>&#13;<![CDATA[")` — written as ONE scan from
+    left to right (the same function: the two patterns cannot overlap and neither replacement text contains the
+    other pattern unescaped), so that it is a structural recursion the kernel can evaluate -/
+def cdataEscape (value : String) : String := String.ofList (cdataEscL value.toList)
 
 def genString (tag value : String) : String :=
   s!"<{tag} type=\"String\"><![CDATA[{cdataEscape value}]]></{tag}>\n"
@@ -341,9 +351,21 @@ def Image.xmlString (ft : FloatText) (i : Image) : String :=
   ++ "</vectorChild>\n"
 
 /-- escaping of the extension URL inside the `xmlns:` attribute -/
-def attrEscape (s : String) : String :=
-  ((((((s.replace "&" "&amp;").replace "<" "&lt;").replace "\"" "&quot;").replace "\t" "&#9;").replace "\n" "&#10;").replace
-    "\r" "&#13;")
+def attrEscChar (c : Char) : List Char :=
+  if c == '&' then "&amp;".toList
+  else if c == '<' then "&lt;".toList
+  else if c == '"' then "&quot;".toList
+  else if c == '\t' then "&#9;".toList
+  else if c == '\n' then "&#10;".toList
+  else if c == '\r' then "&#13;".toList
+  else [c]
+
+def attrEscL : List Char → List Char
+  | [] => []
+  | c :: cs => attrEscChar c ++ attrEscL cs
+
+/-- Rust: six chained `replace` calls, `&` first — character by character the same function -/
+def attrEscape (s : String) : String := String.ofList (attrEscL s.toList)
 
 /-- `serialize_root`; `none` = "Empty file GUID is not allowed" -/
 def serializeRoot (ft : FloatText) (root : Root) (pcs : List PointCloud) (imgs : List Image)
